@@ -315,6 +315,7 @@ type c11Any struct {
 	C *c11Compact `json:"compaction,omitempty"`
 	D *c11DevFull `json:"devfull,omitempty"`
 	R *c11Recover `json:"recovery,omitempty"`
+	B *c11BgFlush `json:"bgflush,omitempty"`
 }
 
 func (c *c11Any) inner() Case {
@@ -329,6 +330,8 @@ func (c *c11Any) inner() Case {
 		return c.D
 	case c.R != nil:
 		return c.R
+	case c.B != nil:
+		return c.B
 	}
 	return c.F
 }
@@ -363,7 +366,9 @@ func genC11All(r *rand.Rand, tier string) []Case {
 		for cut := 0; cut < len(tables[v]); cut++ {
 			for _, z := range []bool{false, true} {
 				out = append(out, &c11Any{T: &c11Tbl{Mode: []string{"merge", "compact"}[i%2], Tables: tables, Victim: v, Cut: cut, Zeros: z}})
-				out = append(out, &c11Any{T: &c11Tbl{Mode: []string{"merge", "compact"}[i%2], Tables: tables, Victim: v, Cut: cut, Zeros: z, Seek: true, Mid: []int{0, 1, 5, 9, 14}[(cut+i)%5]}})
+				// (a cut inside a record that is padded with zeros is altered content, not a failing read: with the
+				// checks switched off nothing can notice it, so those cuts stay at record boundaries)
+				out = append(out, &c11Any{T: &c11Tbl{Mode: []string{"merge", "compact"}[i%2], Tables: tables, Victim: v, Cut: cut, Zeros: z, Seek: true, Mid: map[bool]int{false: []int{0, 1, 5, 9, 14}[(cut+i)%5], true: 0}[z]}})
 			}
 		}
 	}
@@ -411,6 +416,13 @@ func genC11All(r *rand.Rand, tier string) []Case {
 			rc.Limits = append(rc.Limits, lim+r.Intn(10))
 		}
 		out = append(out, &c11Any{R: rc})
+	}
+	// a flush failing on the real background goroutine
+	for i, f := range []string{"data.rio", "index.rio", "meta.pb.bin", "bloom.bf.gz"} {
+		if tier != "thorough" && i%2 != int(r.Int63()%2) {
+			continue
+		}
+		out = append(out, &c11Any{B: &c11BgFlush{NPuts: 12 + r.Intn(20), ValLen: 100 + r.Intn(400), File: f}})
 	}
 	return out
 }
